@@ -42,6 +42,8 @@ CHECKS = {
                 note="Trusted: lxml. Lazily loading a part is not a change. Create-on-demand getters (get_variable_decls, get_user_field_decls) excluded by contract."),
     "C18": dict(tech=ENUM, ref="5/C18", text="Date: every day of the listed years (all years 1..9999 in thorough); DateTime: year x day x time x microsecond x zone lattice; Duration: every whole second of [-2 d, +2 d] (10 d thorough) plus a magnitude lattice; colours: every (r,g,b) of listed red ranges (all 2^24 thorough), lattice, CSS names; Boolean and Unit lattices; decode(encode(v)) == v and the encoding matches the ODF lexical regex; rejection: every single-character edit of valid encodings must raise or return what an independent lenient ISO-8601 reading assigns.",
                 note="Trusted: CPython datetime. Date.decode returning a datetime for a date is documented and accepted. 'Randomly inside' is not done."),
+    "C06": dict(tech=ENUM, ref="5/C06", text="Value lattice (bool, int incl. huge/negative, float incl. exponents, Decimal incl. trailing zeros, every string of length <= 3 over an alphabet with white space / XML-special / non-ASCII plus type look-alikes such as 'true', dates and datetimes over years 1..9999 x microseconds x zones, whole-second durations incl. negative and multi-day, None) x every carrier (Cell, Cell.value, Row/Table set_value, VarSet, UserFieldDecl, UserDefined, user-defined metadata) x {direct, re-parsed, saved and reopened}; every ordered pair of type representatives written on the same carrier; attributes checked against the ODF lexical forms.",
+                note="Trusted: lxml. Documented type map accepted (numbers come back as int/Decimal, a date as datetime at midnight). inf/nan and fractional durations are outside the domain."),
 }
 
 NOT_YET = {}
